@@ -65,7 +65,9 @@ class Interp4(Interp3):
             if attr == "name":
                 return SStr(self.w.acc(c, "name", obj.t))
             if attr == "version":
-                return SInt(self.w.acc(c, "ver", obj.t))
+                v = SInt(self.w.acc(c, "ver", obj.t))
+                v.is_version = True         # a packaging.Version: ordered like its Int image, str() is verStr
+                return v
         if isinstance(obj, SAdt) and obj.sort == "Node" and attr in ("name", "version") and self.implied(self.is_c("Md", obj.t)):
             return self.get_attr_hook4(SAdt("Dep", self.acc("Md", "d", obj.t)), attr, node)
         h = getattr(self, "get_attr_hook5", None)
